@@ -3,7 +3,7 @@ from pyvc.util import native_file
 from . import lalrmodel
 
 PROPERTY = 'C13'
-UNITS = ['C13', 'C02']        # the driver ParserState.feed_token is verified in C02's unit; its obligations are re-generated here too
+UNITS = ['C13', 'C02', 'C03']  # the driver ParserState.feed_token is verified in C02's unit, the LALR child filters (which re-use their first child's list in place) in C03's; their obligations are re-generated here too
 TRUSTED = list(lalrmodel.TRUSTED) + [
     "copy.deepcopy(list): a fresh list of the same length (lark's Tree/Token __deepcopy__ are not under contract); copy.copy of an object without __copy__ is a fresh shallow copy",
     "type(self)(...) constructs the statically declared class (no subclass of the parser-state classes is in play)",
